@@ -17,13 +17,24 @@ bool g_trace_ops = false;
 // ---------------------------------------------------------------------------------------------
 // harness buffers: exact documented extent, 64-byte canaries either side
 // ---------------------------------------------------------------------------------------------
+// fault misaligned_caller_buffers: callers owe the library only the alignment of an Element (8 bytes)
+static bool g_misalign = false;
+
 struct HBuf
 {
+    uint64_t *base;
     uint64_t *ptr;
     size_t n;
     std::string name;
-    HBuf(size_t n_, const char *name_) : n(n_), name(name_) { ptr = (uint64_t *)sim::buf_alloc(n * 8, name_, false, 0); }
-    ~HBuf() { sim::buf_free(ptr); }
+    HBuf(size_t n_, const char *name_) : n(n_), name(name_)
+    {
+        // misaligned: one extra word in front, so the buffer starts at 8 (mod 16); its end still coincides
+        // with the end of the block (overruns stay byte-exact, an underrun of <= 8 bytes is not seen)
+        size_t pad = g_misalign ? 1 : 0;
+        base = (uint64_t *)sim::buf_alloc((n + pad) * 8, name_, false, 0);
+        ptr = base + pad;
+    }
+    ~HBuf() { sim::buf_free(base); }
     HBuf(const HBuf &) = delete;
     HBuf &operator=(const HBuf &) = delete;
     uint64_t *p() { return ptr; }
@@ -44,7 +55,7 @@ struct HBuf
     }
     void load(const std::vector<uint64_t> &v, size_t count) { std::copy(v.begin(), v.begin() + count, ptr); }
     std::vector<uint64_t> vec() const { return std::vector<uint64_t>(ptr, ptr + n); }
-    bool canary_ok(std::string &what) const { return sim::buf_check(ptr, what); }
+    bool canary_ok(std::string &what) const { return sim::buf_check(base, what); }
 };
 
 static uint64_t fnv(const void *data, size_t bytes, uint64_t h = 0xcbf29ce484222325ULL)
@@ -259,8 +270,10 @@ static void account_main(Ctx &c, const Op &op, const sim::OpStats &st, uint64_t 
             r.probes.insert("team==trip_count");
         if (T >= 2 && (uint64_t)T < min_trip)
             r.probes.insert("team<trip_count");
-        if (T == 64)
-            r.probes.insert("team==64");
+        if (T >= 64)
+            r.probes.insert("team>=64");
+        if (T > 64)
+            r.probes.insert("team>64");
     }
     if (multi && (st.switches > 0 || op.strategy == sim::ST_SERIAL_PERM || op.strategy == sim::ST_PCT))
         r.nontrivial = true;
@@ -282,6 +295,8 @@ static void account_main(Ctx &c, const Op &op, const sim::OpStats &st, uint64_t 
         r.faults["dirty_heap"] += st.heap_blocks;
     if (op.dirty_bufs)
         r.faults["dirty_caller_buffers"]++;
+    if (op.misaligned_bufs)
+        r.faults["misaligned_caller_buffers"]++;
     if (st.nested_regions)
         r.probes.insert("nested_region");
     if (st.max_concurrent >= 3)
@@ -505,7 +520,9 @@ static void exec_transform(Ctx &c, const Op &op)
     auto do_main = [&] {
         ensure_slot(c, op);
         void *obj = op.obj < 0 ? nullptr : c.slots[op.obj & 1].o;
+        g_misalign = op.misaligned_bufs;
         m = run_transform(c, op, obj, mc, op.dirty_bufs, op.garbage_seed, in, true);
+        g_misalign = false;
     };
     if (op.main_first)
     {
@@ -521,7 +538,9 @@ static void exec_transform(Ctx &c, const Op &op)
         do_ref();
         uint64_t B = ref.st.steps + ref.st.serial_steps;
         mc.step_estimate = ref.st.steps;
-        mc.step_limit = 4 * B + 100000ull * 64 + 1000000;
+        // bounded liveness: the one-member work, plus a per-region allowance for what every member does
+        // besides its share (reading the shared frame, computing its chunk), for up to 128 members
+        mc.step_limit = 8 * B + (uint64_t)ref.st.regions * 128 * 4096 + 1000000;
         do_main();
     }
     uint64_t trip = std::max<uint64_t>(op.kind == plan::K_EXTEND ? op.n : op.n, 1);
@@ -714,7 +733,9 @@ static void exec_merkle(Ctx &c, const Op &op)
         mc.step_estimate = (op.rows * (op.cols * op.dim / 8 + 2)) * 6000 + 64;
         mc.step_limit = 4000000000ull;
         r.probes.insert("main_before_reference");
+        g_misalign = op.misaligned_bufs;
         out = run(mc, op.dirty_bufs, op.garbage_seed, true, mst, mroot);
+        g_misalign = false;
         do_ref();
     }
     else
@@ -722,8 +743,10 @@ static void exec_merkle(Ctx &c, const Op &op)
         do_ref();
         uint64_t B = rst.steps + rst.serial_steps;
         mc.step_estimate = rst.steps;
-        mc.step_limit = 4 * B + 100000ull * 64 + 1000000;
+        mc.step_limit = 8 * B + (uint64_t)rst.regions * 128 * 4096 + 1000000;
+        g_misalign = op.misaligned_bufs;
         out = run(mc, op.dirty_bufs, op.garbage_seed, true, mst, mroot);
+        g_misalign = false;
     }
     account_main(c, op, mst, op.rows);
     r.hash = fnv_vec(out, r.hash);
@@ -798,17 +821,19 @@ static void exec_copy(Ctx &c, const Op &op)
     RunResult &r = c.res;
     bool zero = op.kind == plan::K_PARSETZERO;
     std::vector<uint64_t> in = gen_input(plan::IN_RAND64, op.size, 1, op.input_seed);
+    g_misalign = op.misaligned_bufs;
     HBuf S(zero ? 0 : op.size, "src");
     if (!zero)
         S.load(in, op.size);
     HBuf D(op.size, "dst");
     D.fill_garbage(derive_seed(op.garbage_seed, 11) | 1);
+    g_misalign = false;
     // make sure "garbage" never equals the expected result by accident
     for (uint64_t i = 0; i < op.size; i++)
         if (D.p()[i] == (zero ? 0 : in[i]))
             D.p()[i] ^= 0x5555;
     sim::OpSim mc = sim_cfg_of(op);
-    mc.step_limit = 50ull * op.size + 100000ull * 64 + 1000000;
+    mc.step_limit = 50ull * op.size + 128ull * 4096 * 4 + 1000000;
     mc.step_estimate = 2 * op.size / 4 + 16;
     sim::IcvState icv = sim::icv_save();
     (void)icv;
